@@ -50,6 +50,15 @@ Theorem C12_cmdline_rule_on_kernel_shapes : forall k,
 Proof. exact spec_split_argv. Qed.
 Print Assumptions C12_cmdline_rule_on_kernel_shapes.
 
+(* size: the theorems above bound nothing; in particular for the argument vectors the harness
+   describes by repetition (hundreds of arguments, one argument of 100 KiB, ...) every
+   argument comes back, whatever the size of /proc/<pid>/cmdline *)
+Theorem C12_cmdline_any_size : forall gs zombie,
+  forallb group_ok gs = true -> expand_args gs <> [] -> single_space (expand_args gs) = false ->
+  pl_cmdline now (view_cmd (KArgv (expand_args gs)) zombie) = Val (expand_args gs).
+Proof. exact cmdline_repeat. Qed.
+Print Assumptions C12_cmdline_any_size.
+
 (* ---- environ() *)
 
 (* for every byte block whatsoever: never an exception, a dictionary with unique keys *)
@@ -88,6 +97,14 @@ Theorem C12_environ_spec_list : forall items,
   NoDup (map fst (spec_env items)) /\ forall k, aget k (spec_env items) = env_last k items.
 Proof. exact environ_spec_list. Qed.
 Print Assumptions C12_environ_spec_list.
+
+(* ... and every variable of an environment of any size *)
+Theorem C12_environ_any_size : forall gs,
+  forallb egroup_ok gs = true ->
+  exists d, pl_environ now (view_env {| e_items := expand_env 0 gs; e_tail := ENone |}) = Val d /\ NoDup (map fst d) /\
+            forall k, aget k d = env_last k (expand_env 0 gs).
+Proof. exact environ_repeat. Qed.
+Print Assumptions C12_environ_any_size.
 
 (* ---- exe() / cwd() *)
 
